@@ -69,6 +69,8 @@ def compute(tier, seed):
             obs[o["id"]] = o
             kinds[o["kind"]] = kinds.get(o["kind"], 0) + 1
         viol = []
+        drift = [v for v in rep["violations"] if v["p"].startswith("DRIFT")]
+        rep["violations"] = [v for v in rep["violations"] if not v["p"].startswith("DRIFT")]
         if rep["violations"]:
             # the driver is deterministic for a given seed: re-run and require the same verdicts
             out2 = os.path.join(work, "rerun")
@@ -80,7 +82,12 @@ def compute(tier, seed):
                 viol.append({"pred": v["p"], "prop": v["p"][:3], "title": "%s %s" % (o["kind"], o.get("fault", "")),
                              "sig": sig_of(v["p"], o), "reproduced": (v["id"], v["p"]) in again, "observation": o})
         samples = [{k: obs[i][k] for k in ("kind", "limits", "fault", "ret", "second")} for i in sorted(obs)[::max(1, len(obs) // 4)]][:4]
-        return {"design": design, "impl": {"obs": len(obs), "kinds": kinds, "stats": stats, "harness_secs": round(hsecs, 1)},
+        drift_notes = [{"trace": v["id"], "program": "merge plan, limits %s" % json.dumps(obs[v["id"]]["limits"]), "explained": None,
+                        "events": len(obs[v["id"]]["before"]),
+                        "first_unexplained": {"sources_combined": [[b["ptr"] for b in obs[v["id"]]["before"]]], "note": "file groups differ from the planner specification's"}}
+                       for v in drift][:5]
+        return {"design": design, "drift": drift_notes,
+                "impl": {"obs": len(obs), "kinds": kinds, "stats": stats, "harness_secs": round(hsecs, 1)},
                 "violations": viol, "samples": samples, "wall_s": round(time.time() - t0, 1)}
     finally:
         shutil.rmtree(work, ignore_errors=True)
@@ -97,6 +104,7 @@ def evidence(pid, tier, res):
     n = sum(impl["kinds"].get(k, 0) for k in REL[pid])
     cov = {"states": des["states"], "transitions": des["transitions"], "traces_validated_against_impl": n,
            "samples": res["samples"], "design_runs": des["runs"], "observation_kinds": impl["kinds"], "monitor_stats": impl["stats"],
+           "drift_traces": res.get("drift", []),
            "summary": "%d observations of the real Merge judged, %d design states" % (n, des["states"])}
     if pid == "C13":
         cov["fault_positions_reached"] = impl["stats"].get("faults_reached", 0)
